@@ -431,9 +431,12 @@ class Array:
 
         """
         array = self._checkarrayforappend(array)
-        fd.seek(0, 2)  # move to end
+        startpos = fd.seek(0, 2)  # move to end
         array.tofile(fd)
         fd.flush()
+        # numpy does not always report a failed write (e.g. disk full)
+        if os.fstat(fd.fileno()).st_size != startpos + array.nbytes:
+            raise OSError("could not write all array data to file")
         return array.shape[0]
 
     def iterappend(self, arrayiterable):
